@@ -2,6 +2,8 @@ import RV.C15.Lemmas
 import RV.C15.LemmasStore
 import RV.C15.LemmasAlg
 import RV.C15.LemmasInit2
+import RV.C15.LemmasTD2
+import RV.C15.LemmasTD3
 /-
   C15 — property theorems (statements first, as `def Statement_… : Prop`, then the proofs).
 
@@ -229,6 +231,18 @@ def Statement_prepared_any_schedule : Prop :=
   ∀ (n : Nat) (es : List (ExS n)) (calls : List (Nat × Row n)),
     (∀ e ∈ es, e.clean = true) → (runCalls es calls).2 = es
 
+/-- The whole prepared object — `prologue.base` included — is the same after an evaluation, whatever `base=`
+    keyword the evaluation was given, and the keyword of one evaluation has no influence on the next. -/
+def Statement_prepared_base_unchanged : Prop :=
+  ∀ (n : Nat) (p : PQ n) (st st' : Store) (b b' : Option (List Nat)), p.tree.clean = true →
+    (p.run st b).2 = p ∧ ((p.run st b).2.run st' b').1 = (p.run st' b').1
+
+theorem prepared_base_unchanged : Statement_prepared_base_unchanged := fun _ p st st' b b' h => by
+  have e : (p.run st b).2 = p := by
+    cases p with
+    | mk base tree => simp [PQ.run, QS.run_snd st tree h]
+  exact ⟨e, by rw [e]⟩
+
 theorem expr_eval_clears : Statement_expr_eval_clears := fun _ e c => ⟨e.eval_snd c, e.eval_fst c⟩
 
 theorem prepared_stateless : Statement_prepared_stateless := fun _ q st _ h hd =>
@@ -276,6 +290,174 @@ theorem aggregate_without_skip_duplicates :
     let g2 : List Triple := [(1, 2, 3), (4, 2, 3)]
     (graphStore g1 (none, none, none) ++ graphStore g2 (none, none, none)).length = 3 ∧
     (aggTriples [graphStore g1, graphStore g2] (none, none, none)).length = 2 := by
+  decide
+
+/-! ## 6. the evaluator as rdflib runs it (top-down, bindings pushed into the operand evaluated next):
+       BGP order and variable names through OPTIONAL, MINUS, GRAPH, VALUES, BIND, FILTER, lazy and non-lazy joins -/
+
+/-- every graph an evaluation can reach answers `triples(pattern)` with each matching triple once -/
+def DSet.AllExactlyOnce (ds : DSet) : Prop :=
+  (∃ d, ExactlyOnce ds.dflt d) ∧ ∀ x ∈ ds.named, ∃ d, ExactlyOnce x.2 d
+
+/-- Permuting the triple patterns of any BGPs anywhere in the algebra tree — under OPTIONAL (left or right side),
+    MINUS (either side), GRAPH, BIND, FILTER, UNION, lazy or non-lazy joins — leaves the bag of `evalPart` alone, in
+    every context (current graph `g`, pushed bindings `μ`, initBindings `init`), hence for the SELECT query. -/
+def Statement_td_bgp_reorder : Prop :=
+  ∀ (n : Nat) (ds : DSet) (init : Row n) (q q' : P n), ds.AllExactlyOnce → RwB q q' →
+    (∀ (g : Store) (μ : Row n), (∃ d, ExactlyOnce g d) → (evalTD ds init q g μ).Perm (evalTD ds init q' g μ)) ∧
+    (∀ pv, (evalSelectTD ds init pv q).Perm (evalSelectTD ds init pv q'))
+
+/-- What rdflib runs — `reorderTriples` on every BGP at translation, the dynamic sort at each `evalPart` — equals
+    the query with its BGPs in any written order, whatever the (abstract) tie-break order of terms. -/
+def Statement_td_plan_order_irrelevant : Prop :=
+  ∀ (n : Nat) (isLit : Term → Bool) (tle : TP n → TP n → Bool) (ds : DSet) (init : Row n) (pv : List (Fin n))
+    (q q' : P n), ds.AllExactlyOnce → RwB q q' →
+    (evalSelectTD ds init pv (q.reorder isLit tle)).Perm (evalSelectTD ds init pv q')
+
+/-- Consistent renaming of the variables (any injective `ρ`; the query, its projection, the initBindings and the
+    pushed bindings renamed together): the answers are the renamed answers, as lists — through every operator. -/
+def Statement_td_rename_equivariant : Prop :=
+  ∀ (n m : Nat) (ρ : Ren n m) (ds : DSet) (init : Row n) (q : P n),
+    (∀ (g : Store) (μ : Row n), evalTD ds (ρ.push init) (ρ.p q) g (ρ.push μ) = (evalTD ds init q g μ).map ρ.push) ∧
+    (∀ pv, evalSelectTD ds (ρ.push init) (pv.map ρ.f) (ρ.p q) = (evalSelectTD ds init pv q).map ρ.push)
+
+def Statement_td_union_swap : Prop :=
+  ∀ (n : Nat) (ds : DSet) (init : Row n) (a b : P n) (g : Store) (μ : Row n),
+    (evalTD ds init (.union a b) g μ).Perm (evalTD ds init (.union b a) g μ)
+
+/-- Swapping the operands of a join — at full strength, for the evaluator as it runs.  FALSE for rdflib (known
+    findings C15-K3 / K7 / K8: `_vars` is an upper bound used as if exact): see `td_join_swap_witness`; what holds is
+    `td_join_swap_partial` (joins that are not evaluated lazily) and, on the bottom-up algebra, `model_rewrite_invariant`. -/
+def Statement_td_join_swap : Prop :=
+  ∀ (n : Nat) (ds : DSet) (init : Row n) (a b : P n) (g : Store) (μ : Row n),
+    (evalTD ds init (.join a b) g μ).Perm (evalTD ds init (.join b a) g μ)
+
+/-- the same graph names, and under each name two stores that answer exactly once over the same set of triples -/
+inductive SameData : List (Term × Store) → List (Term × Store) → Prop
+  | nil : SameData [] []
+  | cons {k : Term} {s s' : Store} {l l' : List (Term × Store)} :
+      (∃ d d', ExactlyOnce s d ∧ ExactlyOnce s' d' ∧ SetEq d d') → SameData l l' →
+      SameData ((k, s) :: l) ((k, s') :: l')
+
+/-- The evaluator as it runs reaches its stores only through `triples`: the same data (default graph and named
+    graphs) behind other stores gives the same bag — through every operator, GRAPH included. -/
+def Statement_td_store_irrelevant : Prop :=
+  ∀ (n : Nat) (ds ds' : DSet) (init : Row n) (pv : List (Fin n)) (q : P n),
+    (∃ d d', ExactlyOnce ds.dflt d ∧ ExactlyOnce ds'.dflt d' ∧ SetEq d d') → SameData ds.named ds'.named →
+    (evalSelectTD ds init pv q).Perm (evalSelectTD ds' init pv q)
+
+theorem td_store_irrelevant : Statement_td_store_irrelevant := by
+  intro n ds ds' init pv q hd hn
+  have hgen : ∀ {l l' : List (Term × Store)}, SameData l l' → NamedEq l l' := by
+    intro l l' h
+    induction h with
+    | nil => exact .nil
+    | cons h _ ih =>
+      obtain ⟨d, d', h1, h2, e⟩ := h
+      exact .cons (exactlyOnce_perm h1 h2 e) ih
+  have hne : NamedEq ds.named ds'.named := hgen hn
+  obtain ⟨d, d', h1, h2, e⟩ := hd
+  have hdf : StoreEq ds.dflt ds'.dflt := exactlyOnce_perm h1 h2 e
+  exact (evalTD_store_congr ⟨hdf, hne⟩ init q ds.dflt ds'.dflt init hdf).map _
+
+theorem td_bgp_reorder : Statement_td_bgp_reorder := by
+  intro n ds init q q' hds h
+  have hgood : ds.Good := fun x hx => by
+    obtain ⟨d, hd⟩ := hds.2 x hx
+    exact ⟨_, exactlyOnce_graphLike hd⟩
+  refine ⟨fun g μ hg => ?_, fun pv => ?_⟩
+  · obtain ⟨d, hd⟩ := hg
+    exact evalTD_rwB ds hgood init h g μ ⟨_, exactlyOnce_graphLike hd⟩
+  · obtain ⟨d, hd⟩ := hds.1
+    exact (evalTD_rwB ds hgood init h ds.dflt init ⟨_, exactlyOnce_graphLike hd⟩).map _
+
+theorem td_plan_order_irrelevant : Statement_td_plan_order_irrelevant := fun n isLit tle ds init pv q _ hds h =>
+  ((td_bgp_reorder n ds init _ _ hds (RwB.reorder isLit tle q)).2 pv).symm.trans
+    ((td_bgp_reorder n ds init _ _ hds h).2 pv)
+
+theorem td_rename_equivariant : Statement_td_rename_equivariant := by
+  intro n m ρ ds init q
+  refine ⟨ρ.evalTD_push ds init q, fun pv => ?_⟩
+  have h := ρ.evalTD_push ds init q ds.dflt init
+  simp only [evalSelectTD, h, List.map_map]
+  congr 1
+  funext μ
+  exact ρ.project_push pv μ
+
+theorem td_union_swap : Statement_td_union_swap := fun _ _ _ _ _ _ _ => List.perm_append_comm
+
+/-- a join that is not evaluated lazily (an operand contains a join) is `_join` of the two bags: commutative -/
+theorem td_join_swap_partial :
+    ∀ (n : Nat) (ds : DSet) (init : Row n) (a b : P n) (g : Store) (μ : Row n), (a.noJoin && b.noJoin) = false →
+      (evalTD ds init (.join a b) g μ).Perm (evalTD ds init (.join b a) g μ) := by
+  intro n ds init a b g μ h
+  have h' : (b.noJoin && a.noJoin) = false := by rw [Bool.and_comm]; exact h
+  simp only [evalTD, h, h']
+  exact joinBag_comm _ _
+
+/-- `{ ?x p ?y } { OPTIONAL { ?x q ?z } FILTER(bound(?x)) }` over one `p` triple: the lazy join pushes `?x` into the
+    right group, whose filter keeps it (it is in `_vars` of the OPTIONAL, which did not match): 1 solution; with the
+    operands swapped the group is evaluated first, `?x` is unbound: 0 solutions. -/
+theorem td_join_swap_witness : ¬ Statement_td_join_swap := by
+  intro h
+  have := (h 3 { dflt := graphStore [(1, 10, 2)], named := [] } Row.empty
+    (.bgp [(.var 0, .const 10, .var 1)])
+    (.filter (.bound 0) (.leftJoin (.bgp []) (.bgp [(.var 0, .const 11, .var 2)]) none))
+    (graphStore [(1, 10, 2)]) Row.empty).length_eq
+  revert this
+  decide
+
+/-! ## 7. initBindings against a VALUES row, for the evaluator as it runs, through OPTIONAL and UNION -/
+
+/-- `Graph.query("SELECT pv { B0 tail* }", initBindings=κ)`, tails = `OPTIONAL { B [FILTER e] }` | `{B1} UNION {B2}`,
+    over a graph given as a list of triples -/
+def evalInitT {n : Nat} (g : List Triple) (κ : Row n) (pv : List (Fin n)) (ts0 : List (TP n)) (tails : List (Tail n)) :
+    List (Row n) :=
+  evalSelectTD { dflt := graphStore g, named := [] } κ pv (buildT ts0 tails)
+
+/-- the same query with `VALUES (dom κ) { (κ) }` at the end of its group, no initBindings -/
+def evalValuesT {n : Nat} (g : List Triple) (κ : Row n) (pv : List (Fin n)) (ts0 : List (TP n)) (tails : List (Tail n)) :
+    List (Row n) :=
+  evalSelectTD { dflt := graphStore g, named := [] } Row.empty pv (.join (buildT ts0 tails) (.values [κ]))
+
+/-- initBindings for variables the outermost BGP binds = a VALUES row for them, with any number of OPTIONAL (with or
+    without a filter of their own) and UNION elements after the outermost BGP — evaluated as rdflib evaluates
+    (bindings pushed into the OPTIONAL parts and UNION branches, the OPTIONAL re-check, `forget`, `thaw`). -/
+def Statement_initbindings_values_td : Prop :=
+  ∀ (n : Nat) (g : List Triple) (κ : Row n) (pv : List (Fin n)) (ts0 : List (TP n)) (tails : List (Tail n)),
+    (∀ v, κ v ≠ none → v ∈ bgpVars ts0) → (evalInitT g κ pv ts0 tails).Perm (evalValuesT g κ pv ts0 tails)
+
+theorem initbindings_values_td : Statement_initbindings_values_td := by
+  intro n g κ pv ts0 tails h
+  have c := SeedClaim.allTails (ds := { dflt := graphStore g, named := [] }) tails (.bgp ts0)
+    (SeedClaim.bgp _ g κ ts0 h)
+  simp only [evalInitT, evalValuesT, evalSelectTD, buildT]
+  rw [values_join_eq_filter _ _ κ _ c.binds]
+  exact c.seed.map _
+
+/-- the first version of the proof: every join of the tree evaluated lazily (`tailsLazy`: any number of OPTIONAL
+    tails, at most one UNION tail); superseded by `initbindings_values_td`, which also covers UNION tails joined by
+    `_join` (`SeedClaim.uniStrict`) -/
+theorem initbindings_values_td_partial :
+    ∀ (n : Nat) (g : List Triple) (κ : Row n) (pv : List (Fin n)) (ts0 : List (TP n)) (tails : List (Tail n)),
+      tailsLazy true tails = true → (∀ v, κ v ≠ none → v ∈ bgpVars ts0) →
+      (evalInitT g κ pv ts0 tails).Perm (evalValuesT g κ pv ts0 tails) := by
+  intro n g κ pv ts0 tails hl h
+  have c := SeedClaim.tails (ds := { dflt := graphStore g, named := [] }) tails (.bgp ts0)
+    (SeedClaim.bgp _ g κ ts0 h) hl
+  simp only [evalInitT, evalValuesT, evalSelectTD, buildT]
+  rw [values_join_eq_filter _ _ κ _ c.binds]
+  exact c.seed.map _
+
+/-- the side condition is needed on the evaluator as it runs, too: `{ ?x p ?y OPTIONAL { ?x q ?z } }` with
+    initBindings for `?z` (which the outermost BGP does not bind): the value restricts the OPTIONAL part and the
+    solution survives without it; the VALUES row, joined afterwards, removes the solution whose `?z` differs -/
+theorem initbindings_values_td_needs_outermost_binding :
+    let g : List Triple := [(1, 10, 2), (1, 11, 3)]
+    let κ : Row 3 := Row.empty.set 2 4
+    let tails : List (Tail 3) := [.opt [(.var 0, .const 11, .var 2)] none]
+    showRows (evalInitT g κ [0, 1, 2] [(.var 0, .const 10, .var 1)] tails) ≠
+      showRows (evalValuesT g κ [0, 1, 2] [(.var 0, .const 10, .var 1)] tails) := by
   decide
 
 /-! ## non-vacuity: the hypotheses are met by concrete, non-trivial instances -/
@@ -331,6 +513,37 @@ example :
     let q : Q 2 := .filter (.not (.same (.var 0) (.const 4))) (.bgp [(.var 0, .const 2, .var 1)])
     let r := runMany (QS.ofQ q) [graphStore [(1, 2, 3), (4, 2, 3)], graphStore [(4, 2, 3)], graphStore [(1, 2, 3), (4, 2, 3)]]
     r.1.map showRows = [[[some 1, some 3]], [], [[some 1, some 3]]] ∧ r.2.clean = true := by
+  decide
+
+/-- a data set with a named graph meets `AllExactlyOnce`; an OPTIONAL + MINUS + GRAPH query over it has answers, and
+    the same answers with the patterns of its BGP swapped -/
+example :
+    let ds : DSet := { dflt := graphStore [(1, 10, 2), (3, 10, 2), (3, 11, 4)], named := [(7, graphStore [(1, 10, 2)])] }
+    let q : P 3 := .minus (.leftJoin (.bgp [(.var 0, .const 10, .var 1), (.var 0, .const 10, .const 2)])
+                              (.bgp [(.var 0, .const 11, .var 2)]) none)
+                          (.graph (.const 7) (.bgp [(.var 0, .const 10, .var 1)]))
+    let q' : P 3 := .minus (.leftJoin (.bgp [(.var 0, .const 10, .const 2), (.var 0, .const 10, .var 1)])
+                              (.bgp [(.var 0, .const 11, .var 2)]) none)
+                          (.graph (.const 7) (.bgp [(.var 0, .const 10, .var 1)]))
+    ds.AllExactlyOnce ∧ RwB q q' ∧
+      showRows (evalSelectTD ds Row.empty [0, 1, 2] q) = [[some 3, some 2, some 4]] ∧
+      showRows (evalSelectTD ds Row.empty [0, 1, 2] q') = [[some 3, some 2, some 4]] := by
+  refine ⟨⟨⟨_, graphStore_exactlyOnce (by decide)⟩, ?_⟩, ?_, by decide, by decide⟩
+  · intro x hx
+    simp only [List.mem_singleton] at hx
+    subst hx
+    exact ⟨_, graphStore_exactlyOnce (by decide)⟩
+  · exact .minus (.leftJoin none (.bgp (List.Perm.swap _ _ _)) (.refl _)) (.refl _)
+
+/-- an initBindings instance through OPTIONAL and UNION that meets the side condition and restricts the answer -/
+example :
+    let g : List Triple := [(1, 10, 2), (3, 10, 2), (1, 11, 5), (2, 12, 6)]
+    let κ : Row 4 := Row.empty.set 0 1
+    let tails : List (Tail 4) := [.opt [(.var 0, .const 11, .var 2)] (some (.bound 2)),
+                                  .uni [(.var 1, .const 12, .var 3)] [(.var 1, .const 13, .var 3)]]
+    (∀ v, κ v ≠ none → v ∈ bgpVars [((.var 0, .const 10, .var 1) : TP 4)]) ∧ tailsLazy true tails = true ∧
+      showRows (evalInitT g κ [0, 1, 2, 3] [(.var 0, .const 10, .var 1)] tails) = [[some 1, some 2, some 5, some 6]] ∧
+      showRows (evalValuesT g κ [0, 1, 2, 3] [(.var 0, .const 10, .var 1)] tails) = [[some 1, some 2, some 5, some 6]] := by
   decide
 
 end RV.C15
